@@ -47,7 +47,7 @@ OkV == [v |-> "ok", cls |-> "", detail |-> ""]
 Chk(cond, cls, detail, rest) == IF cond THEN rest ELSE FailV(cls, detail)
 
 Init == /\ l = 1 /\ k = 0 /\ tally = [ok |-> 0, fail |-> 0, ambig |-> 0, skip |-> 0, steps |-> 0]
-        /\ W = [pub |-> <<>>, today |-> 0, todayPub |-> FALSE, force |-> FALSE] /\ C = R!EmptyLoader({})
+        /\ W = [pub |-> <<>>, today |-> 0, todayPub |-> FALSE, force |-> FALSE, wr |-> TRUE] /\ C = R!EmptyLoader({})
         /\ chk = [d |-> -1]
 
 Bump(f) == [tally EXCEPT ![f] = @ + 1]
@@ -64,12 +64,12 @@ Describe(r) == IF r.kind = "rate" THEN "the rate of day " \o ToString(r.day) ELS
 Next ==
   /\ l <= Len(Segs)
   /\ IF k = 0
-     THEN /\ k' = 1 /\ W' = [pub |-> PubOf(Seg), today |-> 0, todayPub |-> FALSE, force |-> FALSE]
+     THEN /\ k' = 1 /\ W' = [pub |-> PubOf(Seg), today |-> 0, todayPub |-> FALSE, force |-> FALSE, wr |-> TRUE]
           /\ C' = R!EmptyLoader(YearsOf(Seg)) /\ chk' = [d |-> -1] /\ UNCHANGED <<l, tally>>
      ELSE IF k > Len(Seg.events) THEN Conclude(OkV)
      ELSE LET e == Seg.events[k] IN
           IF e.ev = "run"
-          THEN /\ W' = [W EXCEPT !.today = e.today, !.todayPub = e.todayPub, !.force = e.force]
+          THEN /\ W' = [W EXCEPT !.today = e.today, !.todayPub = e.todayPub, !.force = e.force, !.wr = e.wr]
                /\ C' = R!NewRun(C) /\ k' = k + 1 /\ chk' = [d |-> -1] /\ UNCHANGED <<l, tally>>
           ELSE LET s == R!Lookup(W, C, e.d)
                    want == R!Ref(W, e.d)
